@@ -770,6 +770,11 @@ class PathExec:
                 nm = base.name.split('#')[0] + f'::promoted[{pm.group(2)}]'
                 if nm in s.prog.consts: return s.run_fn(s.prog.consts[nm], [])
         k = c
+        if k not in s.prog.consts and strip_generics(k) not in s.prog.consts and '::' in k:
+            # items are printed with their module path at use sites but without it at their definition
+            segs = strip_generics(k).split('::')
+            for i in range(1, len(segs)):
+                if '::'.join(segs[i:]) in s.prog.consts: k = '::'.join(segs[i:]); break
         if k in s.prog.consts or strip_generics(k) in s.prog.consts:
             cf = s.prog.consts.get(k) or s.prog.consts[strip_generics(k)]
             if isinstance(cf, str): return s.const(cf)
